@@ -929,6 +929,8 @@ class Engine:
         if isinstance(v, VNone):
             return [(st, VExc("AttributeError", f"None.{name}"))]
         if isinstance(v, VRef):
+            if f"ref.{name}" in self.contracts:
+                return [(st, VBound(v, name))]
             return self.ref_attr(v, name, st)
         if isinstance(v, VClass):
             key = self.find_member(v.name, name)
@@ -1030,6 +1032,8 @@ class Engine:
         if isinstance(f, VBound):
             return self.call_method(f.obj, f.name, args, kwargs, st)
         if isinstance(f, VClass):
+            if "new:" + f.name not in self.contracts and f.name in BUILTINS:
+                return BUILTINS[f.name](self, st, args, kwargs)
             return self.call_contract("new:" + f.name, args, kwargs, st)
         raise Undecided(f"call of {type(f).__name__}")
 
